@@ -299,6 +299,56 @@ def run(src, tier, seed):
     # ---- R11 a flag a callee guards on must be written before the call
     stale_guard_rule(res, fx)
     res.extra['units'] = fx.stats['units']
+    # ---- variables of a newly added clause are decision variables again (a check switches clause-less variables off)
+    r = res.rule('added-clause-reactivates-variables', 'in every addOriginalSMTClause that (re)activates variables, each iteration of the loop over the clause\'s literals reaches, on every path, a '
+                 'call that makes the variable a decision variable again (a function assigning decision[v]): a check-sat switches variables without clauses off, and a variable that '
+                 'reappears in a later clause must be branched on', floor=1)
+    from walk import Client, Engine
+    setters = {f['id'] for f in fx.F.values() if f.get('body') and f['name'].startswith('opensmt::') and
+               any(n.get('k') in ('bin',) and n.get('op') == '=' and (path_of(n['l']) or '').startswith('this.decision[') for n in fwalk(f))}
+    for _ in range(2):
+        setters |= {f['id'] for f in fx.F.values() if f.get('body') and f['name'].startswith('opensmt::') and f['name'].split('::')[-1] in ('addVar_', 'addVar', 'setDecisionVar') and
+                    any(n.get('k') == 'call' and set(fx.targets(n)) & setters for n in fwalk(f))}
+    if not setters:
+        raise AnalysisBroken('no function assigns decision[v]')
+
+    class Reach(Client):
+        def __init__(self):
+            self.exits = set()
+
+        def on_call(self, n, s):
+            if set(fx.targets(n)) & setters:
+                return (True,)
+            return (s,)
+
+        def on_exit(self, kind, node, s):
+            if kind == 'end':
+                self.exits.add(s)
+    n_loops = 0
+    for f in fx.F.values():
+        if not f.get('body') or f['name'].split('::')[-1] != 'addOriginalSMTClause':
+            continue
+        for lp in (x for x in walk(f['body']) if x.get('k') == 'loop'):
+            if not any(n.get('k') == 'call' and set(fx.targets(n)) & setters for n in walk(lp['body'])):
+                continue
+            if any(c is not lp and c.get('k') == 'loop' and any(n.get('k') == 'call' and set(fx.targets(n)) & setters for n in walk(c['body'])) for c in walk(lp['body'])):
+                continue
+            n_loops += 1
+            c = Reach()
+            pseudo = {'body': {'k': 'loop', 'kind': 'do', 'cond': {'k': 'lit', 'v': False, 't': 'bool'}, 'body': lp['body'], 'ln': lp.get('ln')}, 'lambdas': f.get('lambdas', [])}
+            eng = Engine(pseudo, c)
+            eng.run([False])
+            if eng.broken:
+                raise AnalysisBroken('%s: %s' % (f['name'], eng.broken))
+            if False in c.exits:
+                res.bad(r, 'variable-not-reactivated:%s' % f['name'].replace('opensmt::', ''), fx.loc(f, lp.get('ln')), '%s: an iteration of the loop over the new clause\'s literals can finish without '
+                        'making the variable a decision variable again: a variable that a previous check-sat switched off (it had no clause left) and that reappears in this clause is never '
+                        'branched on, so a later check can answer sat with the clause unsatisfied, unlike a fresh solver' % f['name'])
+            else:
+                res.ok(r, '%s: every literal of the added clause reaches %s' % (f['name'].replace('opensmt::', ''), sorted({fx.F[i]['name'].split('::')[-1] for i in setters})))
+    if n_loops == 0:
+        raise AnalysisBroken('no addOriginalSMTClause reactivates variables any more')
+
     return res
 
 
